@@ -26,7 +26,9 @@ Toks == << [auth |-> [f |-> <<>>, r |-> <<>>, c |-> <<>>], blocks |-> <<>>],
 FactCat == << <<0, 0>>, <<0, 1>> >>                                   \* op(read), op(write)
 RuleCat == << R(<<1, 1>>, << <<0, 0>> >>, <<>>),                        \* ok(1) <- op(0)
              R(<<1, 0>>, << <<0, 0>> >>, << G("E", 0, 0) >>) >>          \* fails whenever op(read) is present: evaluation aborts
-CheckCat == << << Q(<< <<0, 1>> >>, <<>>) >> >>                        \* check if op(write)
+CheckCat == << << Q(<< <<0, 1>> >>, <<>>) >>,                          \* check if op(write)
+              << Q(<< <<1, 0>> >>, <<>>) >> >>                          \* check if ok(read): satisfied by TOKEN facts only, so its symbols
+                                                                         \* may occur nowhere else in the authorizer
 PolLists == << << [kind |-> "allow", q |-> << Q(<< <<0, 0>> >>, <<>>) >>] >>,                      \* allow if op(read)
                << [kind |-> "deny", q |-> << Q(<< <<1, 1>> >>, <<>>) >>], [kind |-> "allow", q |-> << Q(<<>>, <<>>) >>] >> >>
 Queries == << R(<<11, -1>>, << <<0, -1>> >>, <<>>), R(<<11, -1>>, << <<1, -1>> >>, <<>>) >>
@@ -34,7 +36,7 @@ Queries == << R(<<11, -1>>, << <<0, -1>> >>, <<>>), R(<<11, -1>>, << <<1, -1>> >
 SetToSeqL(S) == LET RECURSIVE f(_) f(X) == IF X = {} THEN <<>> ELSE LET x == CHOOSE x \in X : TRUE IN <<x>> \o f(X \ {x}) IN f(S)
 Opt(cat, i) == IF i = 0 THEN <<>> ELSE <<cat[i]>>
 Content(f, r, c, p) == [f |-> Opt(FactCat, f), r |-> Opt(RuleCat, r), c |-> Opt(CheckCat, c), p |-> PolLists[p]]
-Contents == {Content(f, r, c, p) : f \in 0..2, r \in 0..2, c \in 0..1, p \in 1..2}
+Contents == {Content(f, r, c, p) : f \in 0..2, r \in 0..2, c \in 0..(IF Shape = "snapshot" THEN 2 ELSE 1), p \in 1..2}
 
 New(t) == [tok |-> t, wf |-> {}, wr |-> <<>>, c |-> <<>>, p |-> <<>>, dirty |-> FALSE, bf |-> {}, br |-> <<>>]
 None == [tok |-> 0]
